@@ -64,3 +64,18 @@ func shortAddr(a string) string {
 	}
 	return a
 }
+
+// bucketInt renders the order of magnitude of an amount for case signatures.
+func bucketInt(v sdk.Int) string {
+	switch {
+	case !v.IsPositive():
+		return "0"
+	case v.LT(sdk.NewInt(100)):
+		return "<100"
+	case v.LT(sdk.NewInt(1000)):
+		return "<1e3"
+	case v.LT(sdk.NewInt(10000)):
+		return "<1e4"
+	}
+	return ">=1e4"
+}
